@@ -50,7 +50,7 @@ func run(items []string) []string {
 var addrs = []string{"1.1.1.1:10480", "1.1.1.1:10580", "2.2.2.2:10480", "9.9.9.9:1"}
 
 func gen(rng *rand.Rand, tier core.Tier, emit core.Emit) {
-	n, maxLen := 150, 60
+	n, maxLen := 600, 60
 	if tier == core.Thorough {
 		n, maxLen = 3000, 300
 	}
